@@ -94,7 +94,10 @@ func (manager *partitionManager) Stop() {
 		zap.String("partition", manager.pc.Name))
 	close(manager.stopCleanExpiredApps)
 	close(manager.stopCleanRoot)
-	manager.remove()
+	// The partition is removed from the cluster context as the last step of the cleanup, that takes the lock of the
+	// cluster context. A configuration update that drops the partition and the removal of the partitions of a RM both
+	// stop the manager while holding that lock: clean up in the background, like the rest of the manager's work.
+	go manager.remove()
 }
 
 // Remove drained managed and empty unmanaged queues. Perform the action recursively.
